@@ -525,7 +525,7 @@ Proof.
     + destruct (t_stk th) as [|[|] s] eqn:Es.
       * apply IH in H; rewrite Es in *; auto.
       * inversion H; subst. unfold lock_step, hcount, pdel_ok; simpl. rewrite Es, Nat.add_0_r.
-        repeat split; auto; try discriminate. simpl in Hg. exact Hg.
+        repeat split; auto; try discriminate.
       * simpl in Hg. apply IH in H; simpl; [|apply unlock_ge; exact Hg]. simpl in H.
         apply lock_step_unlock; auto.
     + destruct (strip_nested (t_stk th) sh) as [s sh1] eqn:Es.
@@ -558,14 +558,21 @@ Proof.
   repeat split; auto. intros k E. exfalso. eapply Hd; eauto.
 Qed.
 
+Lemma lock_step_transport i sh0 sh n sh' th' :
+  lock sh0 = lock sh -> lock_step i sh0 n sh' th' -> lock_step i sh n sh' th'.
+Proof. intros El H. unfold lock_step in *. rewrite El in H. exact H. Qed.
+Lemma lock_ge_transport i sh0 sh n : lock sh0 = lock sh -> lock_ge i sh n -> lock_ge i sh0 n.
+Proof. intros El H. unfold lock_ge in *. rewrite El. exact H. Qed.
+
 Definition lk i sh th (p : shared * thread) := lock_step i sh (length (t_stk th)) (fst p) (snd p).
 
 Lemma finish_lock i sh0 sh th0 th o :
   lock sh0 = lock sh -> t_stk th0 = t_stk th -> lock_ge i sh (length (t_stk th)) -> lk i sh th (finish sh0 th0 o).
 Proof.
   intros El Es Hg. unfold lk, finish. destruct (load (t_ops th0) sh0 (push_res th0 (mk_result sh0 th0 o))) as [a b] eqn:E.
-  apply (load_lock i) in E; simpl; rewrite ?Es; [|unfold lock_ge in *; rewrite El; exact Hg].
-  simpl in E. rewrite Es in E. unfold lock_step in *. rewrite El in E. exact E.
+  apply (load_lock i) in E; simpl.
+  - simpl in E. rewrite Es in E. simpl. eapply lock_step_transport; eauto.
+  - rewrite Es. eapply lock_ge_transport; eauto.
 Qed.
 
 Lemma ret_proc_lock i sh0 sh th0 th fm v :
@@ -573,9 +580,8 @@ Lemma ret_proc_lock i sh0 sh th0 th fm v :
 Proof.
   intros El Es Hg. unfold ret_proc.
   assert (Hpc : forall th1 sm v', t_stk th1 = t_stk th -> lk i sh th (sh0, th_pc th1 (PF3 sm v'))).
-  { intros th1 sm v' E1. unfold lk; simpl. rewrite <- E1.
-    assert (X := pc_only_lock i sh0 th1 (PF3 sm v') eq_refl). unfold lock_step in *. rewrite El in X.
-    apply X; [discriminate|]. rewrite E1. unfold lock_ge in *. rewrite El. exact Hg. }
+  { intros th1 sm v' E1. unfold lk; simpl. rewrite <- E1. apply lock_step_transport with sh0; auto.
+    apply pc_only_lock; [reflexivity|discriminate|]. rewrite E1. eapply lock_ge_transport; eauto. }
   destruct (meth_eqb (t_cur th0) Mmemory_full).
   - unfold do_read. destruct (read_src sh0 Statm) as [x|e|]; simpl;
       try (apply finish_lock; auto).
@@ -623,11 +629,11 @@ Proof.
     + destruct (Nat.eqb o tid) eqn:Eo; [|discriminate]. apply Nat.eqb_eq in Eo. subst o.
       inversion H; subst. simpl. split.
       * intros _. exists (S n). split; auto. destruct (Nat.eq_dec (length (t_stk th)) 0) as [Hz|Hz]; [lia|].
-        destruct Hg as (m & Em & Hm); [lia|]. inversion Em; subst. lia.
+        destruct Hg as (m & Em & Hm); [lia|]. rewrite El in Em. inversion Em; subst. lia.
       * split; [intros k Hk; discriminate|]. split; [intros _ Hn; congruence|]. split; [intros _; split; eauto|]. intros m Em. eauto.
     + inversion H; subst. simpl. split.
       * intros _. exists 1. split; auto. destruct (Nat.eq_dec (length (t_stk th)) 0) as [Hz|Hz]; [lia|].
-        destruct Hg as (m & Em & Hm); [lia|]. discriminate.
+        destruct Hg as (m & Em & Hm); [lia|]. rewrite El in Em. discriminate.
       * split; [intros k Hk; discriminate|]. split; [intros _ Hn; congruence|]. split; [intros _; split; eauto|]. intros m Em; discriminate.
   - (* PTest *)
     unfold hcount in Hg. rewrite Epc in Hg. simpl in Hg.
@@ -663,18 +669,18 @@ Proof.
       assert (Hg1 : lock_ge tid sh1 (S (length s))) by (unfold lock_ge in *; rewrite El; exact Hg).
       apply (load_lock tid) in E; simpl; [|apply unlock_ge; exact Hg1].
       simpl in E. apply lock_step_unlock in E; auto. destruct E as (L1 & L2 & L3 & L4). rewrite El in *.
-      split; auto. split; auto. split; [unfold hcount; rewrite Epc; simpl; lia|]. split; [discriminate|].
+      split; auto. split; auto. split; [unfold hcount; rewrite Epc, Es; simpl; lia|]. split; [discriminate|].
       intros m Em. destruct L4 as [L4|(m1 & E1 & L4)]; [right; exists m; congruence|].
       rewrite Em in E1. inversion E1; subst. exact L4.
   - (* PEnv *)
     eapply Hlk; [discriminate|reflexivity|discriminate| |exact H].
     unfold lk. destruct (load (t_ops th) (apply_env e sh) th) as [a b] eqn:E.
     assert (El : lock (apply_env e sh) = lock sh) by (destruct e; reflexivity).
-    apply (load_lock tid) in E; [|unfold lock_ge; rewrite El; apply Hg0; reflexivity].
-    simpl. unfold lock_step in *. rewrite El in E. exact E.
+    apply (load_lock tid) in E; [|eapply lock_ge_transport; eauto].
+    simpl. eapply lock_step_transport; eauto.
   - (* PF1 *)
-    eapply Hlk; [discriminate|reflexivity|discriminate| |exact H]. specialize (Hg0 eq_refl).
-    destruct (m_front (t_cur th)) as [fk|].
+    specialize (Hg0 eq_refl).
+    destruct (m_front (t_cur th)) as [fk|]; (eapply Hlk; [discriminate|reflexivity|discriminate| |exact H]).
     + unfold on_lookup. destruct (w1 vr Front (KF fk) sh).
       * apply finish_lock; auto.
       * apply pc_only_lock; auto; discriminate.
@@ -682,8 +688,8 @@ Proof.
       * apply finish_lock; auto.
     + unfold crash, lk; simpl. unfold lock_step, hcount, pdel_ok; simpl. rewrite Nat.add_0_r. repeat split; auto; discriminate.
   - (* PF1b *)
-    eapply Hlk; [discriminate|reflexivity|discriminate| |exact H]. specialize (Hg0 eq_refl).
-    destruct (m_front (t_cur th)) as [fk|].
+    specialize (Hg0 eq_refl).
+    destruct (m_front (t_cur th)) as [fk|]; (eapply Hlk; [discriminate|reflexivity|discriminate| |exact H]).
     + unfold on_lookup. destruct (w1b true cid (KF fk) sh).
       * apply finish_lock; auto.
       * apply pc_only_lock; auto; discriminate.
@@ -697,16 +703,15 @@ Proof.
       { destruct (meth_eqb (t_cur th) Mppid); [|inversion Ei; auto].
         unfold ident_check in Ei. destruct (gone_flag sh); [discriminate|]. destruct (srcs sh Stat); inversion Ei; auto. }
       assert (Hpc : forall th1 p, t_stk th1 = t_stk th -> crit1 p = 0 -> (forall k, p <> PDel k) -> lk tid sh th (sh1, th_pc th1 p)).
-      { intros th1 p E1 Hc Hk. unfold lk; simpl. rewrite <- E1.
-        assert (X := pc_only_lock tid sh1 th1 p Hc Hk). unfold lock_step in *. rewrite El in X. apply X.
-        rewrite E1. unfold lock_ge in *. rewrite El. exact Hg0. }
-      eapply Hlk; [discriminate|reflexivity|discriminate| |exact H].
+      { intros th1 p E1 Hc Hk. unfold lk; simpl. rewrite <- E1. apply lock_step_transport with sh1; auto.
+        apply pc_only_lock; auto. rewrite E1. eapply lock_ge_transport; eauto. }
       destruct (memoized (m_src (t_cur th))).
-      * apply Hpc; auto; discriminate.
-      * unfold do_read. destruct (read_src sh1 (m_src (t_cur th))) as [x|e|].
-        -- destruct sm; [apply finish_lock; auto|apply Hpc; auto; discriminate].
-        -- apply finish_lock; auto.
-        -- apply finish_lock; auto.
+      * eapply Hlk; [discriminate|reflexivity|discriminate| |exact H]. apply Hpc; auto; discriminate.
+      * unfold do_read in H. destruct (read_src sh1 (m_src (t_cur th))) as [x|e|].
+        -- destruct sm; (eapply Hlk; [discriminate|reflexivity|discriminate| |exact H]);
+             [apply finish_lock; auto|apply Hpc; auto; discriminate].
+        -- eapply Hlk; [discriminate|reflexivity|discriminate| |exact H]. apply finish_lock; auto.
+        -- eapply Hlk; [discriminate|reflexivity|discriminate| |exact H]. apply finish_lock; auto.
     + eapply Hlk; [discriminate|reflexivity|discriminate| |exact H]. apply finish_lock; auto.
     + eapply Hlk; [discriminate|reflexivity|discriminate| |exact H]. apply finish_lock; auto.
   - (* PP1 *)
@@ -725,14 +730,13 @@ Proof.
     + apply finish_lock; auto.
   - (* PP2 *)
     specialize (Hg0 eq_refl). unfold do_read in H.
-    eapply Hlk; [discriminate|reflexivity|discriminate| |exact H].
     destruct (read_src sh (m_src (t_cur th))) as [x|e|].
-    + destruct pm.
+    + destruct pm; (eapply Hlk; [discriminate|reflexivity|discriminate| |exact H]).
       * apply ret_proc_lock; auto.
       * assert (X := pc_only_lock tid sh (th_count th (m_src (t_cur th))) (PP3 fm (MStore b) x) eq_refl).
         apply X; auto; discriminate.
-    + apply finish_lock; auto.
-    + apply finish_lock; auto.
+    + eapply Hlk; [discriminate|reflexivity|discriminate| |exact H]. apply finish_lock; auto.
+    + eapply Hlk; [discriminate|reflexivity|discriminate| |exact H]. apply finish_lock; auto.
   - (* PP3 *)
     eapply Hlk; [discriminate|reflexivity|discriminate| |exact H]. specialize (Hg0 eq_refl).
     unfold on_store.
@@ -748,8 +752,8 @@ Proof.
     + apply finish_lock; auto.
     + apply finish_lock; auto.
   - (* PF3 *)
-    eapply Hlk; [discriminate|reflexivity|discriminate| |exact H]. specialize (Hg0 eq_refl).
-    destruct (m_front (t_cur th)) as [fk|].
+    specialize (Hg0 eq_refl).
+    destruct (m_front (t_cur th)) as [fk|]; (eapply Hlk; [discriminate|reflexivity|discriminate| |exact H]).
     + unfold on_store.
       assert (Hw : forall sh1, w3 vr Front (KF fk) sm v sh = Val sh1 -> lock sh1 = lock sh).
       { unfold w3, py_getcache, py_setitem. intros sh1.
@@ -764,3 +768,432 @@ Proof.
       * apply finish_lock; auto.
     + unfold crash, lk; simpl. unfold lock_step, hcount, pdel_ok; simpl. rewrite Nat.add_0_r. repeat split; auto; discriminate.
 Qed.
+
+(* ------------------------------------------------------------------ what a step does to the two pointers *)
+Definition noact (p : pc) := forall k, p <> PAct k.
+Lemma load_pc_noact p : load_pc p -> noact p.
+Proof. intros H k E. subst. exact H. Qed.
+
+Definition same_ptrs sh sh' := fptr sh' = fptr sh /\ pptr sh' = pptr sh.
+Lemma core_ptrs sh sh' : same_core sh sh' -> same_ptrs sh sh'.
+Proof. intros (_ & A & B & _). split; auto. Qed.
+
+Lemma w3_ptrs vr l k sm v sh sh1 : w3 vr l k sm v sh = Val sh1 -> same_ptrs sh sh1.
+Proof.
+  unfold w3, py_getcache, py_setitem.
+  destruct sm as [|[c|]]; [intros E; inversion E; split; auto| |].
+  - destruct (nth_error (heap sh) c); intros E; inversion E; split; auto.
+  - destruct (ptr l sh) as [c|]; simpl.
+    + destruct (nth_error (heap sh) c); intros E; inversion E; split; auto.
+    + destruct (handle_l3 vr); intros E; inversion E; split; auto.
+Qed.
+
+Lemma finish_ptrs sh th o sh' th' : finish sh th o = (sh', th') -> same_ptrs sh sh' /\ noact (t_pc th').
+Proof. intros H. apply finish_core in H. destruct H. split; [apply core_ptrs; auto|apply load_pc_noact; auto]. Qed.
+
+Lemma ret_proc_ptrs sh th fm v sh' th' : ret_proc sh th fm v = (sh', th') -> same_ptrs sh sh' /\ noact (t_pc th').
+Proof.
+  unfold ret_proc. intros H.
+  destruct (meth_eqb (t_cur th) Mmemory_full).
+  - unfold do_read in H. destruct (read_src sh Statm) as [x|e|]; simpl in H; try solve [eapply finish_ptrs; eauto].
+    destruct fm as [|[|b]]; try solve [eapply finish_ptrs; eauto]. inversion H; subst. split; [split; auto|intros k E; discriminate].
+  - destruct fm as [|[|b]]; try solve [eapply finish_ptrs; eauto]. inversion H; subst. split; [split; auto|intros k E; discriminate].
+Qed.
+
+Lemma ptrs_gen vr tid sh th sh' th' :
+  thread_step vr tid sh th = Some (sh', th') ->
+  noact (t_pc th) -> (forall k, t_pc th <> PDel k) -> t_pc th <> PTest ->
+  same_ptrs sh sh' /\ noact (t_pc th').
+Proof.
+  intros H Ha Hd Ht. unfold thread_step in H.
+  assert (Hid : forall p, noact p -> same_ptrs sh sh /\ noact (t_pc (th_pc th p))).
+  { intros p Hp. split; [split; auto|exact Hp]. }
+  destruct (t_pc th) as [| | |k|k|e| |cid|sm|fm|fm cid|fm pm|fm pm v|sm v] eqn:Epc.
+  - discriminate.
+  - destruct (lock sh) as [[o n]|].
+    + destruct (Nat.eqb o tid); [|discriminate]. inversion H; subst. split; [split; auto|intros k E; discriminate].
+    + inversion H; subst. split; [split; auto|intros k E; discriminate].
+  - congruence.
+  - exfalso. eapply Ha; eauto.
+  - exfalso. eapply Hd; eauto.
+  - unsome H E. apply load_core in E. destruct E as [Hc Hl]. split; [|apply load_pc_noact; auto].
+    apply core_ptrs. eapply same_core_trans; [apply apply_env_core|exact Hc].
+  - destruct (m_front (t_cur th)) as [fk|]; unsome H E.
+    + unfold on_lookup in E. destruct (w1 vr Front (KF fk) sh).
+      * eapply finish_ptrs; eauto.
+      * inversion E; subst. apply Hid. intros k X; discriminate.
+      * inversion E; subst. apply Hid. intros k X; discriminate.
+      * eapply finish_ptrs; eauto.
+    + unfold crash in E. inversion E; subst. split; [split; auto|intros k X; discriminate].
+  - destruct (m_front (t_cur th)) as [fk|]; unsome H E.
+    + unfold on_lookup in E. destruct (w1b true cid (KF fk) sh).
+      * eapply finish_ptrs; eauto.
+      * inversion E; subst. apply Hid. intros k X; discriminate.
+      * inversion E; subst. apply Hid. intros k X; discriminate.
+      * eapply finish_ptrs; eauto.
+    + unfold crash in E. inversion E; subst. split; [split; auto|intros k X; discriminate].
+  - destruct (if meth_eqb (t_cur th) Mppid then ident_check sh else IOk sh) as [sh1|e|] eqn:Ei.
+    + assert (Hc1 : same_ptrs sh sh1).
+      { destruct (meth_eqb (t_cur th) Mppid); [|inversion Ei; split; auto].
+        unfold ident_check in Ei. destruct (gone_flag sh); [discriminate|].
+        destruct (srcs sh Stat); inversion Ei; subst; split; auto. }
+      assert (Htr : forall sh2 th2, same_ptrs sh1 sh2 /\ noact (t_pc th2) -> same_ptrs sh sh2 /\ noact (t_pc th2)).
+      { intros sh2 th2 [[X1 X2] X3]. destruct Hc1 as [Y1 Y2]. split; [split; congruence|auto]. }
+      destruct (memoized (m_src (t_cur th))).
+      * inversion H; subst. split; [exact Hc1|intros k X; discriminate].
+      * unfold do_read in H. destruct (read_src sh1 (m_src (t_cur th))) as [x|e|].
+        -- destruct sm; unsome H E.
+           ++ apply Htr. eapply finish_ptrs; eauto.
+           ++ inversion E; subst. split; [exact Hc1|intros k X; discriminate].
+        -- unsome H E. apply Htr. eapply finish_ptrs; eauto.
+        -- unsome H E. apply Htr. eapply finish_ptrs; eauto.
+    + unsome H E. eapply finish_ptrs; eauto.
+    + unsome H E. eapply finish_ptrs; eauto.
+  - unsome H E. unfold on_lookup in E. destruct (w1 vr Proc (KS (m_src (t_cur th))) sh).
+    + eapply ret_proc_ptrs; eauto.
+    + inversion E; subst. apply Hid. intros k X; discriminate.
+    + inversion E; subst. apply Hid. intros k X; discriminate.
+    + eapply finish_ptrs; eauto.
+  - unsome H E. unfold on_lookup in E. destruct (w1b true cid (KS (m_src (t_cur th))) sh).
+    + eapply ret_proc_ptrs; eauto.
+    + inversion E; subst. apply Hid. intros k X; discriminate.
+    + inversion E; subst. apply Hid. intros k X; discriminate.
+    + eapply finish_ptrs; eauto.
+  - unfold do_read in H. destruct (read_src sh (m_src (t_cur th))) as [x|e|].
+    + destruct pm; unsome H E.
+      * eapply ret_proc_ptrs; eauto.
+      * inversion E; subst. split; [split; auto|intros k X; discriminate].
+    + unsome H E. eapply finish_ptrs; eauto.
+    + unsome H E. eapply finish_ptrs; eauto.
+  - unsome H E. unfold on_store in E.
+    destruct (w3 vr Proc (KS (m_src (t_cur th))) pm v sh) as [sh1|e|] eqn:Ew.
+    + apply w3_ptrs in Ew. apply ret_proc_ptrs in E. destruct E as [[X1 X2] X3]. destruct Ew as [Y1 Y2].
+      split; [split; congruence|auto].
+    + eapply finish_ptrs; eauto.
+    + eapply finish_ptrs; eauto.
+  - destruct (m_front (t_cur th)) as [fk|]; unsome H E.
+    + unfold on_store in E. destruct (w3 vr Front (KF fk) sm v sh) as [sh1|e|] eqn:Ew.
+      * apply w3_ptrs in Ew. apply finish_ptrs in E. destruct E as [[X1 X2] X3]. destruct Ew as [Y1 Y2].
+        split; [split; congruence|auto].
+      * eapply finish_ptrs; eauto.
+      * eapply finish_ptrs; eauto.
+    + unfold crash in E. inversion E; subst. split; [split; auto|intros k X; discriminate].
+Qed.
+
+Lemma ptrs_test vr tid sh th sh' th' :
+  thread_step vr tid sh th = Some (sh', th') -> t_pc th = PTest ->
+  same_ptrs sh sh' /\ ((fptr sh = None /\ t_pc th' = PAct 0) \/ (fptr sh <> None /\ noact (t_pc th'))).
+Proof.
+  intros H Epc. unfold thread_step in H. rewrite Epc in H. destruct (fptr sh) eqn:Ef.
+  - unsome H E. apply load_core in E. destruct E as [Hc Hl]. split; [apply core_ptrs; auto|].
+    right. split; [discriminate|apply load_pc_noact; auto].
+  - inversion H; subst. split; [split; auto|]. left. auto.
+Qed.
+
+Lemma ptrs_act vr tid sh th sh' th' k :
+  thread_step vr tid sh th = Some (sh', th') -> t_pc th = PAct k ->
+  (k < 4 -> fptr sh' <> None /\ pptr sh' = pptr sh) /\ (4 <= k -> fptr sh' = fptr sh /\ pptr sh' <> None) /\
+  (k < 6 -> t_pc th' = PAct (S k)) /\ (6 <= k -> noact (t_pc th')).
+Proof.
+  intros H Epc. unfold thread_step in H. rewrite Epc in H.
+  assert (Hp : forall sh1, same_core (activate (if Nat.ltb k 4 then Front else Proc) sh) sh1 ->
+               (k < 4 -> fptr sh1 <> None /\ pptr sh1 = pptr sh) /\ (4 <= k -> fptr sh1 = fptr sh /\ pptr sh1 <> None)).
+  { intros sh1 (_ & C2 & C3 & _). rewrite C2, C3. destruct (Nat.ltb k 4) eqn:E4.
+    - apply Nat.ltb_lt in E4. split; [|lia]. intros _. simpl. split; [discriminate|auto].
+    - apply Nat.ltb_ge in E4. split; [lia|]. intros _. simpl. split; [auto|discriminate]. }
+  destruct (Nat.ltb k 6) eqn:E6.
+  - apply Nat.ltb_lt in E6. inversion H; subst. destruct (Hp _ (same_core_refl _)) as [P1 P2].
+    repeat split; try apply P1; try apply P2; auto; lia.
+  - apply Nat.ltb_ge in E6. unsome H E. apply load_core in E. destruct E as [Hc Hl].
+    destruct (Hp _ Hc) as [P1 P2]. split; auto. split; auto. split; [lia|]. intros _. apply load_pc_noact; auto.
+Qed.
+
+Lemma ptrs_del vr tid sh th sh' th' k :
+  thread_step vr tid sh th = Some (sh', th') -> t_pc th = PDel k ->
+  (k < 6 -> t_pc th' = PDel (S k)) /\ (6 <= k -> pptr sh' = None /\ noact (t_pc th')).
+Proof.
+  intros H Epc. unfold thread_step in H. rewrite Epc in H.
+  destruct (deactivate_val (if Nat.ltb k 4 then Front else Proc) sh) as (sh1 & Ed & _ & Hn & _). rewrite Ed in H.
+  destruct (Nat.ltb k 6) eqn:E6.
+  - apply Nat.ltb_lt in E6. inversion H; subst. split; [auto|lia].
+  - apply Nat.ltb_ge in E6. unsome H E. apply load_core in E. destruct E as [(_ & _ & C3 & _) Hl].
+    split; [lia|]. intros _. split; [|apply load_pc_noact; auto].
+    rewrite C3. simpl. assert (Nat.ltb k 4 = false) by (apply Nat.ltb_ge; lia). rewrite H0 in Hn. exact Hn.
+Qed.
+
+(* ------------------------------------------------------------------ the global invariant *)
+Definition phi sh := fptr sh = None -> pptr sh = None.
+Definition phase_ok sh (o : option pc) :=
+  match o with
+  | Some (PAct k) => (k < 4 -> pptr sh = None) /\ (1 <= k -> fptr sh <> None)
+  | Some (PDel _) => True
+  | _ => phi sh
+  end.
+Definition owner_pc (c : cfg) : option pc :=
+  match lock (c_sh c) with Some (i, _) => option_map t_pc (nth_error (c_ths c) i) | None => None end.
+
+Lemma phase_gen sh p : noact p -> phi sh -> phase_ok sh (Some p).
+Proof. intros Hn Hp. destruct p; simpl; auto. exfalso. eapply Hn; eauto. Qed.
+Lemma phase_ptrs sh sh' o : same_ptrs sh sh' -> phase_ok sh o -> phase_ok sh' o.
+Proof. intros [E1 E2]. unfold phase_ok, phi. rewrite E1, E2. auto. Qed.
+
+Definition Inv (c : cfg) :=
+  sh_ok (c_sh c) /\
+  (forall i th, nth_error (c_ths c) i = Some th ->
+                th_ok (c_sh c) th /\ lock_ge i (c_sh c) (hcount th) /\ pdel_ok th) /\
+  phase_ok (c_sh c) (owner_pc c).
+
+Lemma tick_sh_ok sh : sh_ok sh -> sh_ok (tick sh).
+Proof.
+  intros (A & B & C). split; [|split; [exact B|exact C]].
+  intros cid X H. destruct (A _ _ H) as [A1 A2]. simpl. split; [lia|]. intros k v Hin. destruct (A2 _ _ Hin). simpl. lia.
+Qed.
+Lemma tick_ext sh : ext sh (tick sh).
+Proof. unfold ext; simpl. repeat split; auto. intros; eauto. Qed.
+
+Lemma generic_pc th : hcount th = 0 -> pdel_ok th ->
+  noact (t_pc th) /\ (forall k, t_pc th <> PDel k) /\ t_pc th <> PTest.
+Proof.
+  unfold hcount, pdel_ok. intros Hz Hd. repeat split.
+  - intros k E. rewrite E in Hz. simpl in Hz. lia.
+  - intros k E. specialize (Hd _ E). destruct (t_stk th); [congruence|simpl in Hz; lia].
+  - intros E. rewrite E in Hz. simpl in Hz. lia.
+Qed.
+
+Lemma Inv_step c t c' : Inv c -> lts_step code_now c t = Some c' -> Inv c'.
+Proof.
+  intros (Hsh & Hths & Hph) Hs.
+  apply lts_step_inv in Hs. destruct Hs as (th & sh' & th' & E1 & E2 & ->).
+  destruct (Hths _ _ E1) as (Hth & Hg & Hd).
+  set (sh := c_sh c) in *.
+  assert (Hown : forall m, lock sh = Some (t, m) -> owner_pc c = Some (t_pc th)).
+  { intros m Em. unfold owner_pc. fold sh. rewrite Em, E1. reflexivity. }
+  assert (Hpos : hcount th > 0 -> exists m, lock sh = Some (t, m)).
+  { intros Hh. destruct (Hg Hh) as (m & Em & _). eauto. }
+  assert (Hact : forall k, t_pc th = PAct k -> k < 4 -> pptr sh = None).
+  { intros k Ek Hk. destruct Hpos as (m & Em); [unfold hcount; rewrite Ek; simpl; lia|].
+    rewrite (Hown _ Em), Ek in Hph. apply Hph; auto. }
+  destruct (thread_step_ok _ _ _ _ _ E2 Hsh Hth Hact) as (S1 & S2 & S3 & S4).
+  destruct (thread_step_lock _ _ _ _ _ _ E2 Hg Hd) as (K1 & K2 & K3 & K4 & K5).
+  pose proof Hsh as (A & B & Cf).
+  (* other threads cannot hold the lock when t does *)
+  assert (Hother : forall i thi, i <> t -> nth_error (c_ths c) i = Some thi -> hcount thi > 0 ->
+                   hcount th = 0 /\ t_pc th <> PAcq /\ lock sh' = lock sh).
+  { intros i thi Hne Ei Hh. destruct (Hths _ _ Ei) as (_ & Hgi & _). destruct (Hgi Hh) as (m & Em & _).
+    assert (Hz : hcount th = 0).
+    { destruct (Nat.eq_dec (hcount th) 0); auto. destruct Hpos as (m' & Em'); [lia|]. rewrite Em in Em'. inversion Em'; congruence. }
+    assert (Hna : t_pc th <> PAcq).
+    { intros Ea. destruct (K4 Ea) as [[Hn|(n & Hn)] _]; rewrite Em in Hn; [discriminate|inversion Hn; congruence]. }
+    auto. }
+  split; [|split].
+  - simpl. apply tick_sh_ok; auto.
+  - intros i thi Hi. simpl in Hi. apply nth_error_upd_nth_inv in Hi. simpl.
+    destruct Hi as [[-> (x & Ex & ->)]|[Hne Hi]].
+    + split; [eapply th_ok_ext; [apply tick_ext|apply S1|apply S1|exact S3]|]. split; auto.
+    + destruct (Hths _ _ Hi) as (Ti & Gi & Di).
+      split; [|split; auto].
+      * eapply th_ok_ext; [apply tick_ext|apply S1|apply S1|]. eapply th_ok_ext; eauto.
+      * intros Hh. destruct (Hother _ _ Hne Hi Hh) as (_ & _ & El). unfold lock_ge in Gi.
+        change (lock (tick sh')) with (lock sh'). rewrite El. auto.
+  - (* phase *)
+    unfold owner_pc. simpl. change (lock (tick sh')) with (lock sh').
+    apply phase_ptrs with sh'; [split; reflexivity|].
+    assert (Hphase_t : forall m, lock sh = Some (t, m) -> phase_ok sh' (Some (t_pc th')) /\ (lock sh' = None -> phi sh')).
+    { intros m Em. pose proof Hph as Hp0. rewrite (Hown _ Em) in Hp0.
+      destruct (t_pc th) as [| | |k|k|e| |cid|sm|fm|fm cid|fm pm|fm pm v|sm v] eqn:Epc;
+        try (destruct (ptrs_gen _ _ _ _ _ _ E2) as [Hp Hn]; rewrite ?Epc;
+             [intros k X; discriminate|intros k X; discriminate|discriminate|];
+             assert (Hphi : phi sh') by (destruct Hp as [X1 X2]; unfold phi; rewrite X1, X2; exact Hp0);
+             split; [apply phase_gen; auto|auto]).
+      - (* PTest *)
+        destruct (ptrs_test _ _ _ _ _ _ E2 Epc) as [[X1 X2] Hc].
+        assert (Hphi : phi sh') by (unfold phi; rewrite X1, X2; exact Hp0).
+        split; [|auto]. destruct Hc as [[Hf ->]|[Hf Hn]]; [|apply phase_gen; auto].
+        simpl. split; [intros _; rewrite X2; apply Hp0; auto|lia].
+      - (* PAct *)
+        destruct (ptrs_act _ _ _ _ _ _ _ E2 Epc) as (P1 & P2 & P3 & P4). simpl in Hp0. destruct Hp0 as [Q1 Q2].
+        destruct (Nat.lt_ge_cases k 6) as [H6|H6].
+        + rewrite (P3 H6). split.
+          * simpl. destruct (Nat.lt_ge_cases k 4) as [H4|H4].
+            -- destruct (P1 H4) as [F1 F2]. split; [intros _; rewrite F2; auto|auto].
+            -- destruct (P2 H4) as [F1 F2]. split; [lia|]. intros _. rewrite F1. apply Q2. lia.
+          * intros Hn. exfalso. destruct K1 as (m' & Em' & _); [unfold hcount; rewrite (P3 H6); simpl; lia|]. congruence.
+        + destruct (P2 ltac:(lia)) as [F1 F2].
+          assert (Hphi : phi sh') by (intros Hf; exfalso; rewrite F1 in Hf; apply Q2 in Hf; auto; lia).
+          split; [apply phase_gen; auto|auto].
+      - (* PDel *)
+        destruct (ptrs_del _ _ _ _ _ _ _ E2 Epc) as (P1 & P2).
+        destruct (Nat.lt_ge_cases k 6) as [H6|H6].
+        + rewrite (P1 H6). split; [exact I|]. intros Hn. exfalso.
+          assert (Hne : t_stk th' <> []) by (eapply K2; eauto).
+          destruct K1 as (m' & Em' & _); [unfold hcount; destruct (t_stk th'); [congruence|simpl; lia]|]. congruence.
+        + destruct (P2 H6) as [F1 F2]. assert (Hphi : phi sh') by (intros _; exact F1).
+          split; [apply phase_gen; auto|auto]. }
+    destruct (lock sh') as [[j m']|] eqn:El'.
+    + destruct (Nat.eq_dec j t) as [->|Hjt].
+      * rewrite (nth_error_upd_nth_eq _ _ _ _ E1). simpl.
+        destruct (lock sh) as [[i m]|] eqn:El.
+        -- destruct (Nat.eq_dec i t) as [->|Hit].
+           ++ destruct (Hphase_t _ eq_refl) as [X _]. exact X.
+           ++ (* another thread owned the lock: t cannot have taken it *)
+              exfalso. destruct (Nat.eq_dec (hcount th) 0) as [Hz|Hz].
+              ** assert (Hna : t_pc th <> PAcq).
+                 { intros Ea. destruct (K4 Ea) as [[Hn|(n & Hn)] _]; [discriminate|inversion Hn; congruence]. }
+                 pose proof (K3 Hz Hna) as X. congruence.
+              ** destruct Hpos as (m1 & Em1); [lia|]. inversion Em1; congruence.
+        -- (* the lock was free: t is at PAcq *)
+           destruct (Nat.eq_dec (hcount th) 0) as [Hz|Hz]; [|destruct Hpos as (m1 & Em1); [lia|discriminate]].
+           destruct (generic_pc _ Hz Hd) as (G1 & G2 & G3).
+           destruct (ptrs_gen _ _ _ _ _ _ E2 G1 G2 G3) as [Hp Hn].
+           apply phase_gen; auto. unfold owner_pc in Hph. fold sh in Hph. rewrite El in Hph.
+           destruct Hp as [X1 X2]. unfold phi. rewrite X1, X2. exact Hph.
+      * rewrite nth_error_upd_nth_neq; auto.
+        (* owner j <> t: the lock did not move and t made a generic step *)
+        assert (Hz : hcount th = 0).
+        { destruct (Nat.eq_dec (hcount th) 0); auto. destruct Hpos as (m1 & Em1); [lia|].
+          destruct (K5 _ Em1) as [X|(m2 & X)]; [discriminate|inversion X; congruence]. }
+        assert (Hna : t_pc th <> PAcq).
+        { intros Ea. destruct (K4 Ea) as [_ (m2 & X)]. inversion X; congruence. }
+        assert (El : lock sh = Some (j, m')) by (rewrite <- (K3 Hz Hna); auto).
+        destruct (generic_pc _ Hz Hd) as (G1 & G2 & G3).
+        destruct (ptrs_gen _ _ _ _ _ _ E2 G1 G2 G3) as [Hp Hn].
+        eapply phase_ptrs; [exact Hp|]. unfold owner_pc in Hph. fold sh in Hph. rewrite El in Hph. exact Hph.
+    + (* lock free afterwards *)
+      simpl. destruct (lock sh) as [[i m]|] eqn:El.
+      * destruct (Nat.eq_dec i t) as [->|Hit].
+        -- destruct (Hphase_t _ eq_refl) as [_ X]. apply X; auto.
+        -- exfalso. destruct (Nat.eq_dec (hcount th) 0) as [Hz|Hz].
+           ++ assert (Hna : t_pc th <> PAcq).
+              { intros Ea. destruct (K4 Ea) as [[Hn|(n & Hn)] _]; [discriminate|inversion Hn; congruence]. }
+              pose proof (K3 Hz Hna) as X. congruence.
+           ++ destruct Hpos as (m1 & Em1); [lia|]. inversion Em1; congruence.
+      * destruct (Nat.eq_dec (hcount th) 0) as [Hz|Hz]; [|destruct Hpos as (m1 & Em1); [lia|discriminate]].
+        destruct (generic_pc _ Hz Hd) as (G1 & G2 & G3).
+        destruct (ptrs_gen _ _ _ _ _ _ E2 G1 G2 G3) as [[X1 X2] Hn].
+        unfold owner_pc in Hph. fold sh in Hph. rewrite El in Hph. unfold phi. rewrite X1, X2. exact Hph.
+Qed.
+
+(* ------------------------------------------------------------------ initial configurations *)
+Lemma init_threads_ok : forall progs sh sh' ths,
+  init_threads sh progs = (sh', ths) -> lock sh = None ->
+  same_core sh sh' /\ lock sh' = None /\
+  forall i th, nth_error ths i = Some th -> load_pc (t_pc th) /\ hcount th = 0 /\ pdel_ok th.
+Proof.
+  induction progs as [|p r IH]; intros sh sh' ths H Hl; simpl in H.
+  - inversion H; subst. split; [apply same_core_refl|]. split; auto. intros [|i] th E; discriminate.
+  - destruct (load p sh blank_thread) as [sh1 th1] eqn:E1. destruct (init_threads sh1 r) as [sh2 ths'] eqn:E2.
+    inversion H; subst. pose proof (load_core _ _ _ _ _ E1) as [Hc1 Hp1].
+    assert (Hg : lock_ge 0 sh (length (t_stk blank_thread))) by (intros X; simpl in X; lia).
+    apply (load_lock 0) in E1; auto. destruct E1 as (L1 & L2 & L3 & _). simpl in L3.
+    assert (Hl1 : lock sh1 = None) by (rewrite L3; auto).
+    destruct (IH _ _ _ E2 Hl1) as (Hc2 & Hl2 & Hall).
+    split; [eapply same_core_trans; eauto|]. split; auto.
+    intros [|i] th E; simpl in E.
+    + inversion E; subst. split; auto. split; auto.
+      destruct (Nat.eq_dec (hcount th) 0); auto. destruct L1 as (m & Em & _); [lia|]. congruence.
+    + apply Hall in E. exact E.
+Qed.
+
+Lemma Inv_init f progs : Inv (init_cfg f progs).
+Proof.
+  unfold init_cfg. destruct (init_threads (init_shared f) progs) as [sh ths] eqn:E.
+  destruct (init_threads_ok _ _ _ _ E eq_refl) as (Hc & Hl & Hall).
+  assert (Hsh : sh_ok (init_shared f)).
+  { split; [|split].
+    - intros cid C H. destruct cid; discriminate.
+    - split; intros c H; discriminate.
+    - intros fc H; discriminate. }
+  split; [|split]; simpl.
+  - eapply same_core_sh_ok; eauto.
+  - intros i th Hi. destruct (Hall _ _ Hi) as (H1 & H2 & H3). split; [apply load_pc_th_ok; auto|]. split; auto.
+    intros X. lia.
+  - unfold owner_pc. simpl. rewrite Hl. simpl. destruct Hc as (_ & C2 & C3 & _). unfold phi. rewrite C3. auto.
+Qed.
+
+Lemma Inv_reach f progs c : reach code_now (init_cfg f progs) c -> Inv c.
+Proof. intros H. induction H; [apply Inv_init|eapply Inv_step; eauto]. Qed.
+
+(* Theorem 7 (the code now).  Every interleaving of any number of threads running any programs
+   of enter / exit / raise / calls / environment changes: every value held by any cache dict,
+   front level or reader level, was read after that dict was created (and a dict is created
+   only after its block was entered). *)
+Theorem cache_values_from_block : forall f progs c cid C k v,
+  reach code_now (init_cfg f progs) c ->
+  nth_error (heap (c_sh c)) cid = Some C -> In (k, v) (c_ents C) ->
+  c_born C <= snd v /\ snd v <= clock (c_sh c).
+Proof.
+  intros f progs c cid C k v Hr HC Hin. destruct (Inv_reach _ _ _ Hr) as ((A & _) & _).
+  destruct (A _ _ HC) as [_ A2]. apply A2 in Hin. exact Hin.
+Qed.
+
+(* ... and the two pointers only ever name dicts that exist *)
+Theorem no_dangling_cache_pointer : forall f progs c,
+  reach code_now (init_cfg f progs) c ->
+  (forall cid, fptr (c_sh c) = Some cid -> cid < length (heap (c_sh c))) /\
+  (forall cid, pptr (c_sh c) = Some cid -> cid < length (heap (c_sh c))).
+Proof. intros f progs c Hr. destruct (Inv_reach _ _ _ Hr) as ((_ & B & _) & _). exact B. Qed.
+
+(* mutual exclusion: a thread that is inside oneshot() -- creating or removing dicts, or with an
+   open block -- holds Process._lock *)
+Theorem block_owner_holds_lock : forall f progs c i th,
+  reach code_now (init_cfg f progs) c -> nth_error (c_ths c) i = Some th ->
+  (t_stk th <> [] \/ (exists k, t_pc th = PAct k) \/ (exists k, t_pc th = PDel k) \/ t_pc th = PTest) ->
+  exists m, lock (c_sh c) = Some (i, m).
+Proof.
+  intros f progs c i th Hr Hi Hc. destruct (Inv_reach _ _ _ Hr) as (_ & Hths & _).
+  destruct (Hths _ _ Hi) as (_ & Hg & Hd).
+  assert (Hh : hcount th > 0).
+  { unfold hcount. destruct Hc as [Hs|[(k & Hk)|[(k & Hk)|Hk]]].
+    - destruct (t_stk th); [congruence|simpl; lia].
+    - rewrite Hk; simpl; lia.
+    - specialize (Hd _ Hk). destruct (t_stk th); [congruence|simpl; lia].
+    - rewrite Hk; simpl; lia. }
+  destruct (Hg Hh) as (m & Em & _). eauto.
+Qed.
+
+(* ------------------------------------------------------------------ the code before commit 7b727b3 *)
+(* owner: block, call, block, call; caller: two calls; third thread: one source change.
+   The caller misses in block 1's dict, reads version 1, is pre-empted; the source changes; the
+   owner leaves block 1 and enters block 2; the caller stores version 1 into block 2's dict. *)
+Definition progs_stale : list (list op) :=
+  [[OEnter; OCall (CM Mcpu_num); OExit; OEnter; OCall (CM Mcpu_num); OExit];
+   [OCall (CM Mcpu_num); OCall (CM Mcpu_num)];
+   [OEnv (ESet Stat (SAvail 2))]].
+Definition sched_stale : list nat :=
+  repeat 0 9 ++ [1; 1] ++ [2] ++ repeat 0 19 ++ [1; 1; 1; 1] ++ repeat 0 30.
+
+Definition stale_entry (c : cfg) : bool :=
+  existsb (fun C => existsb (fun kv => Nat.ltb (snd (snd kv)) (c_born C)) (c_ents C)) (heap (c_sh c)).
+(* a call that returned a value read before the call started, out of a dict created after the read *)
+Definition stale_result (c : cfg) (tid : nat) : bool :=
+  match nth_error (c_ths c) tid with
+  | None => false
+  | Some th =>
+      existsb (fun r => match r_out r, r_hit r with
+                        | Val v, Some cid =>
+                            Nat.ltb (snd v) (r_t0 r) &&
+                            match nth_error (heap (c_sh c)) cid with Some C => Nat.ltb (snd v) (c_born C) | None => false end
+                        | _, _ => false
+                        end) (t_res th)
+  end.
+
+Theorem cache_values_from_block_before_fix_refuted :
+  exists sch, let c := run_sched code_before_fix (init_cfg (fun _ => SAvail 1) progs_stale) sch in
+    (exists cid C k v, nth_error (heap (c_sh c)) cid = Some C /\ In (k, v) (c_ents C) /\ snd v < c_born C)
+    /\ stale_result c 0 = true      (* the block owner, inside block 2 *)
+    /\ stale_result c 1 = true.     (* the plain caller's second call *)
+Proof.
+  exists sched_stale. cbv zeta.
+  set (c := run_sched code_before_fix (init_cfg (fun _ => SAvail 1) progs_stale) sched_stale).
+  assert (H : stale_entry c = true) by (vm_compute; reflexivity).
+  split; [|split; vm_compute; reflexivity].
+  unfold stale_entry in H. apply existsb_exists in H. destruct H as (C & HC & H).
+  apply existsb_exists in H. destruct H as ([k v] & Hkv & H). apply Nat.ltb_lt in H.
+  apply In_nth_error in HC. destruct HC as (cid & HC). exists cid, C, k, v. auto.
+Qed.
+
+(* the same schedule on the code now: nothing stale *)
+Example stale_schedule_now_clean :
+  let c := run_sched code_now (init_cfg (fun _ => SAvail 1) progs_stale) sched_stale in
+  stale_entry c = false /\ stale_result c 0 = false /\ stale_result c 1 = false.
+Proof. vm_compute. auto. Qed.
